@@ -250,6 +250,7 @@ class C07(Prop):
                         else:
                             sim.count("eval_raised:" + str(slot.exc))
                     exhausted = slot.state == "done"
+                    pulls_at_abandon, cb_at_abandon = len(stream.pulls), sim.cb_total
                     if slot.state == "open":
                         if how == "close":
                             run.close(slot)
@@ -262,6 +263,12 @@ class C07(Prop):
                             run.park(f"_e{i}")
                             run.collect()
                             sim.count("fault_fired:F2_orphan_cycle")
+                    if len(stream.pulls) != pulls_at_abandon:
+                        # closing / dropping / collecting an abandoned evaluation is not a request for a result
+                        sim.violate("pull-without-demand", {"evaluation": n_eval, "how": how, "delivered": delivered,
+                                                            "pulled_before_finalisation": pulls_at_abandon,
+                                                            "pulled_after": len(stream.pulls), "stream": items})
+                        break
                     rows = list(slot.rows)
                     sim.counters["rows_last_eval"] = len(rows)
                     sig.append(("eval", delivered, slot.state, len(stream.pulls)))
